@@ -104,12 +104,21 @@ impl Resolver<'_> {
     fn materialize_function(&mut self, closure: Box<Func>) -> Result<Expr> {
         log::debug!("stack_push for {}", closure.as_debug_name());
 
+        // names in the body are looked up relative to the module that declares the function
+        let module_path = (closure.name_hint.as_ref()).map(|name| name.path.clone());
+
         let (func_env, body, return_ty) = env_of_closure(*closure);
 
         self.root_mod.module.stack_push(NS_PARAM, func_env);
 
         // fold again, to resolve inner variables & functions
-        let body = self.fold_expr(body)?;
+        let call_site_path = module_path
+            .map(|path| std::mem::replace(&mut self.current_module_path, path));
+        let body = self.fold_expr(body);
+        if let Some(path) = call_site_path {
+            self.current_module_path = path;
+        }
+        let body = body?;
 
         // remove param decls
         log::debug!("stack_pop: {:?}", body.id);
